@@ -11,6 +11,7 @@ import (
 	"go/types"
 	"os"
 	"path/filepath"
+	"regexp"
 	"sort"
 	"strings"
 
@@ -20,6 +21,10 @@ import (
 )
 
 const modPath = "github.com/islishude/bip39"
+
+// fresh symbols created while executing the package initialiser are numbered
+// from here so that they never collide with a function's own symbols
+const initSymBase = 1000000
 
 type Program struct {
 	RepoDir   string
@@ -52,6 +57,7 @@ type Program struct {
 	wordLists     map[string]*WordList
 	verifExempt   []string
 	bounded       *boundedStats
+	initDecls     []string
 	audits        []map[string]interface{}
 	selftest      []map[string]interface{}
 	groundDone    bool
@@ -204,7 +210,7 @@ func (p *Program) prelude(native bool) string {
 		b.WriteString("(declare-fun f_declName (Int) Str)\n")
 	}
 	s += b.String()
-	s += ListAxioms(p.listFacts, p.listsOK)
+	s += ListAxioms(p.Lang, p.listFacts, p.listsOK)
 	var ecs []string
 	for c := range p.extConsts {
 		ecs = append(ecs, c)
@@ -373,6 +379,7 @@ func (p *Program) runInit() []*Obligation {
 	ex := p.newExec(fn, nil)
 	ex.isInit = true
 	ex.name = "init"
+	ex.nfresh = initSymBase
 	func() {
 		defer func() {
 			if r := recover(); r != nil {
@@ -388,6 +395,10 @@ func (p *Program) runInit() []*Obligation {
 		st.next = IntLit(20)
 		st.pc = nil
 		st.heap["Done"] = T(SAIBo, "((as const (Array Int Bool)) false)")
+		for g := range st.globals {
+			// package-level variables without initialiser start at their zero value
+			st.globals[g] = ex.zeroOfType(st, g.Type().(*types.Pointer).Elem())
+		}
 		ex.assumeHeapBasics(st)
 		ex.stepBudget = 100000
 		ex.runBlock(st, fn.Blocks[0], 0)
@@ -403,6 +414,20 @@ func (p *Program) initStore(ex *Exec, st *State, g *ssa.Global, v SV) {
 // recordInit is called at the return of init: path facts become global facts,
 // heap contents of the big.Int globals are recorded as concrete values.
 func (p *Program) recordInit(ex *Exec, st *State) {
+	// symbols introduced while executing init (values of unknown initialisers)
+	// are declared in every VC; their defining facts become global facts
+	initSym := regexp.MustCompile(`_(\d{7,})\b`)
+	for _, d := range ex.decls {
+		if initSym.MatchString(d) {
+			p.initDecls = append(p.initDecls, d)
+		}
+	}
+	for _, t := range st.pc {
+		if initSym.MatchString(t.S) && !strings.Contains(t.S, "_0 ") && !strings.Contains(t.S, "_0)") {
+			p.initFacts = append(p.initFacts, t.S)
+		}
+	}
+	p.preludeCache = map[bool]string{}
 	// with a concrete allocation counter the values stored by init are closed
 	// terms; what remains are the heap-resident facts, proved here once as
 	// "init establishes the global invariants".
@@ -543,4 +568,36 @@ func contractFiles(repo string) []string {
 	m, _ = filepath.Glob(filepath.Join(repo, "update-wordlist", "verif_contracts*.go"))
 	out = append(out, m...)
 	return out
+}
+
+// onceOfLiteral: the sync.Once whose Do receives this function literal (nil if none).
+func (p *Program) onceOfLiteral(fn *ssa.Function) *ssa.Global {
+	if fn == nil || fn.Parent() == nil {
+		return nil
+	}
+	for _, b := range fn.Parent().Blocks {
+		for _, in := range b.Instrs {
+			c, ok := in.(*ssa.Call)
+			if !ok || c.Call.IsInvoke() || len(c.Call.Args) != 2 {
+				continue
+			}
+			callee, ok := c.Call.Value.(*ssa.Function)
+			if !ok || callee.String() != "(*sync.Once).Do" {
+				continue
+			}
+			var lit *ssa.Function
+			switch a := c.Call.Args[1].(type) {
+			case *ssa.Function:
+				lit = a
+			case *ssa.MakeClosure:
+				lit, _ = a.Fn.(*ssa.Function)
+			}
+			if lit == fn {
+				if g, ok := c.Call.Args[0].(*ssa.Global); ok {
+					return g
+				}
+			}
+		}
+	}
+	return nil
 }
